@@ -389,6 +389,9 @@ def variable_kern_section(ctx):
                 break
 
 
+F52_SIG = "legacy-kern-writer-declared-tag-not-derived-from-a-unicode-script"
+
+
 def declared_script_section(ctx):
     """a script that the feature file DECLARES (languagesystem) and whose glyphs carry mark anchors -- so the script has a record
     in GPOS -- but that has no kerning of its own: kerning between script-neutral glyphs (punctuation, digits) applies in its
@@ -401,7 +404,11 @@ def declared_script_section(ctx):
     tri = [[(Fr(0), Fr(0), "line"), (Fr(50), Fr(0), "line"), (Fr(50), Fr(50), "line")]]
     # (dev2, khmr: scripts that shapers kern through 'dist' -- the common kerning reaches them there, F47)
     EXTRA = [("grek", [("alpha", 0x3B1), ("beta", 0x3B2)]), ("cyrl", [("a-cy", 0x430), ("be-cy", 0x431)]), ("hebr", [("alef-hb", 0x5D0), ("bet-hb", 0x5D1)]),
-             ("dev2", [("ka-deva", 0x915), ("kha-deva", 0x916)]), ("khmr", [("ka-khmer", 0x1780), ("kha-khmer", 0x1781)])]
+             ("dev2", [("ka-deva", 0x915), ("kha-deva", 0x916)]), ("khmr", [("ka-khmer", 0x1780), ("kha-khmer", 0x1781)]),
+             # declared tags that are not the tag fontTools derives from a Unicode script: musical symbols (their characters are
+             # script-neutral), Hangul Jamo (Unicode script Hang -> 'hang'), the old Indic tag next to no 'dev2'
+             ("musc", [("gclef", 0x1D11E), ("quarternote", 0x1D15F)]), ("jamo", [("kiyeok-jamo", 0x1100), ("a-jamo", 0x1161)]),
+             ("deva", [("ka-deva", 0x915), ("kha-deva", 0x916)])]
     for i in range(ctx.budget(2 * len(EXTRA), 4 * len(EXTRA))):
         lib = ["ufoLib2", "defcon"][(i + i // (2 * len(EXTRA))) % 2]
         wname, wcls = [("kernFeatureWriter", KernFeatureWriter), ("kernFeatureWriter2", KernFeatureWriter2)][(i // len(EXTRA)) % 2]
@@ -432,7 +439,12 @@ def declared_script_section(ctx):
             for (a, c), v in (("period", "quotesingle"), -55), (("one", "period"), 12):
                 got = lay.pair_adjust(lk, a, c)[0]
                 if got != v:
-                    ctx.spec_failure(dict(case, script=t, pair=[a, c]), "under %s the pair (%s, %s) of script-neutral glyphs is adjusted by %r, the UFO says %r" % (t, a, c, got, v))
+                    from fontTools import unicodedata as _ud
+                    # (F52: the legacy writer registers its lookups under the tags it derives from Unicode scripts only)
+                    legacy_noncanonical = wname == "kernFeatureWriter2" and t == tag and got == 0 and \
+                        t not in _ud.ot_tags_from_script(_ud.ot_tag_to_script(t) or "Zzzz")
+                    ctx.spec_failure(dict(case, script=t, pair=[a, c]), "under %s the pair (%s, %s) of script-neutral glyphs is adjusted by %r, the UFO says %r" % (t, a, c, got, v),
+                                     signature=F52_SIG if legacy_noncanonical else None)
 
 
 def language_section(ctx):
